@@ -122,6 +122,7 @@ func driverMain(args []string) {
 	var samples []*Scenario
 	digestLines := []string{}
 	variantsUsed := map[string]bool{}
+	sitesHit := map[string]map[uint32]bool{} // variant -> yield sites executed by any worker
 	for _, ph := range phases {
 		if len(filter) > 0 && !filter[ph.Name] {
 			continue
@@ -221,6 +222,14 @@ func driverMain(args []string) {
 				}
 				if o.MaxStepRatio > total.MaxStepRatio {
 					total.MaxStepRatio = o.MaxStepRatio
+				}
+				if len(o.SitesHit) > 0 {
+					if sitesHit[variant] == nil {
+						sitesHit[variant] = map[uint32]bool{}
+					}
+					for _, id := range o.SitesHit {
+						sitesHit[variant][id] = true
+					}
 				}
 				failures = append(failures, o.Failures...)
 				if len(samples) < 5 {
@@ -393,6 +402,9 @@ func driverMain(args []string) {
 		"knob_seam":                         *knobSeam,
 		"known_findings_hit":                knownHits,
 	}
+	if sc := siteCoverage(sitesHit, siteFiles); len(sc) > 0 {
+		cov["yield_site_reach"] = sc
+	}
 	if *prop == "C04" {
 		cov["max_steps_over_budget"] = total.MaxStepRatio
 		cov["step_budget"] = "B(n)=1024*(n+64)^2 yield steps per stage for an n-byte document"
@@ -484,6 +496,44 @@ func workerEnv() []string {
 	}
 	env = append(env, "GOMAXPROCS="+gmp, "GORACE=halt_on_error=0 exitcode=0 atexit_sleep_ms=0", "GOMEMLIMIT=3GiB")
 	return env
+}
+
+// siteCoverage: which instrumented function entries / loop bodies of the code
+// under test the workload of this run executed at least once, per build
+// variant, with the ones it never reached written out.
+func siteCoverage(hit map[string]map[uint32]bool, siteFiles map[string]string) map[string]interface{} {
+	out := map[string]interface{}{}
+	for variant, hs := range hit {
+		b, err := os.ReadFile(siteFiles[variant])
+		if err != nil {
+			continue
+		}
+		var t struct {
+			Sites []struct {
+				ID   uint32 `json:"id"`
+				File string `json:"file"`
+				Line int    `json:"line"`
+				Kind string `json:"kind"`
+				Func string `json:"func"`
+			} `json:"sites"`
+		}
+		if json.Unmarshal(b, &t) != nil {
+			continue
+		}
+		var unhit []string
+		for _, s := range t.Sites {
+			if !hs[s.ID] {
+				unhit = append(unhit, fmt.Sprintf("%s:%d %s (%s)", s.File, s.Line, s.Func, s.Kind))
+			}
+		}
+		sort.Strings(unhit)
+		n := len(unhit)
+		if len(unhit) > 80 {
+			unhit = append(unhit[:80], fmt.Sprintf("... %d more", n-80))
+		}
+		out[variant] = map[string]interface{}{"sites_total": len(t.Sites), "sites_executed": len(t.Sites) - n, "never_executed": unhit}
+	}
+	return out
 }
 
 func runReplay(bin, file, racelog string, extra []string) (int, string) {
